@@ -239,7 +239,12 @@ class Interp:
                 if not is_iv(d):
                     raise Unsupported("switch on unknown value in bb%d" % bi)
                 nxt = None
-                inside = [(int(v), bb) for v, bb in t["targets"] if d[1] <= int(v) <= d[2]]
+                tgts = [(int(v), bb) for v, bb in t["targets"]]
+                dty = t.get("dty", "")
+                if dty in _BITS and _BITS[dty][1]:
+                    bits_ = _BITS[dty][0]
+                    tgts = [((v - (1 << bits_)) if v >= (1 << (bits_ - 1)) else v, bb) for v, bb in tgts]
+                inside = [(v, bb) for v, bb in tgts if d[1] <= v <= d[2]]
                 if single(d):
                     nxt = inside[0][1] if inside else t["otherwise"]
                 elif not inside:
